@@ -127,7 +127,7 @@ section
 variable (T : Stat) {s : Store} {out : CSem2.Outcome} {lp : Bool} {brk cont : String} {c : SCtx}
   {nd nd' : Nat} {pre post : List Item} {env : Env} {M : Mem}
 
-theorem sim_incdec (n : Nat) (i : Nat) (t : CSem.Ty) (inc : Bool)
+theorem sim_incdec_nb (n : Nat) (i : Nat) (t : CSem.Ty) (inc : Bool) (htb : t ≠ .bool)
     (hex : exec T.S.cs (n + 1) s (.incdec i t inc) = some out)
     (hwt : Stmt.wt T.vtys T.ret lp nd (.incdec i t inc) = some nd') (hp : Pos T c nd pre)
     (hext : Ext T (funcstmt T.S.cs brk cont (.incdec i t inc) c).ctx)
@@ -141,7 +141,7 @@ theorem sim_incdec (n : Nat) (i : Nat) (t : CSem.Ty) (inc : Bool)
   simp only [Stmt.wt] at hwt
   split at hwt
   · rename_i hw
-    obtain ⟨hi, hkt, htb⟩ := hw
+    obtain ⟨hi, hkt⟩ := hw
     simp only [funcstmt, funcopen_none hp.jump, List.nil_append, htb, if_false] at hext hits ⊢
     have hslot : T.σ.getD i 0 = c.slots.getD i 0 := hext.1 i (by
       show i < c.slots.length; rw [hp.nslots]; exact hi)
@@ -206,6 +206,173 @@ theorem sim_incdec (n : Nat) (i : Nat) (t : CSem.Ty) (inc : Bool)
     simp only [List.append_assoc, List.singleton_append, List.cons_append, List.nil_append, storeIns] at hall ⊢
     exact hall
   · cases hwt
+
+end
+
+/-- reading a `_Bool` object: the whole register is 0 or 1 -/
+theorem AInv.load_bool (cs : Bool) {σ : List Nat} {vtys : List CSem.Ty} {s : Store} {i : Nat} {env : Env}
+    {M : Mem} (h : AInv σ vtys s i env M) {k : Nat} {v : Int} (hk : k < i)
+    (hkt : vtys[k]? = some .bool) (hv : s[k]? = some (some v)) (hr : 0 ≤ v ∧ v ≤ 1) :
+    ∃ a r, env[tmpName (σ.getD k 0)]? = some a ∧
+      execOp (.load (loadOf cs .bool)) (some (cls .bool)) [a] M none = .ok (r, M) ∧ WRep 32 v r := by
+  obtain ⟨a, al, h1, h2, h3, h4, _, h6⟩ := h.slots k .bool hk hkt
+  have hk' : k < M.stack.size := by rw [h.ssize]; exact hk
+  have hal : M.stack[k] = al := by
+    rw [Array.getElem?_eq_getElem hk'] at h2; exact Option.some.inj h2
+  have hload := load_stack h.mem hk' (n := 1) (by decide) (by rw [hal, h4]; decide)
+  rw [hal, h3] at hload
+  have hx := h6 v hv
+  simp only [Ty.size, Nat.reduceMul] at hx
+  refine ⟨⟨.l, a⟩, ⟨.w, loadLE al.bytes 0 1 &&& mask32⟩, h1, ?_, _, rfl, ?_⟩
+  · have hlo : loadOf cs .bool = .ub := rfl
+    have hcl : cls .bool = .w := rfl
+    rw [hlo, hcl]
+    simp [execOp, needRes, bind, Except.bind, loadInfo, hload, truncTo, pure, Except.pure, Cls.kind]
+  · show (((loadLE al.bytes 0 1 &&& mask32) &&& mask32).toNat : Int) % 2 ^ 32 = v % 2 ^ 32
+    rw [toNat_and_mask32, toNat_and_mask32]
+    omega
+
+section
+variable (T : Stat) {s : Store} {out : CSem2.Outcome} {lp : Bool} {brk cont : String} {c : SCtx}
+  {nd nd' : Nat} {pre post : List Item} {env : Env} {M : Mem}
+
+/-- `++`/`--` on a `_Bool` object: `loadub`, `add`/`sub`, `cnew … 0` (`convert(f, &typebool, &typeint, v)`),
+    `storeb` -/
+theorem sim_incdec_bool (n : Nat) (i : Nat) (inc : Bool)
+    (hex : exec T.S.cs (n + 1) s (.incdec i .bool inc) = some out)
+    (hwt : Stmt.wt T.vtys T.ret lp nd (.incdec i .bool inc) = some nd') (hp : Pos T c nd pre)
+    (hext : Ext T (funcstmt T.S.cs brk cont (.incdec i .bool inc) c).ctx)
+    (hits : T.S.its = pre ++ (funcstmt T.S.cs brk cont (.incdec i .bool inc) c).items ++ post)
+    (inv : SInv T.S.cs T.σ T.vtys s env M) :
+    Post T lp brk cont (T.at env M pre) (pre ++ (funcstmt T.S.cs brk cont (.incdec i .bool inc) c).items)
+      (funcstmt T.S.cs brk cont (.incdec i .bool inc) c).ctx out := by
+  simp only [exec, Option.map_eq_some_iff, Option.bind_eq_some_iff] at hex
+  obtain ⟨v', ⟨v0, hv0, hv'⟩, rfl⟩ := hex
+  have hs0 := join_some hv0
+  simp only [Stmt.wt] at hwt
+  split at hwt
+  · rename_i hw
+    obtain ⟨hi, hkt⟩ := hw
+    simp only [funcstmt, funcopen_none hp.jump, List.nil_append, if_true, convert, Ty.size] at hext hits ⊢
+    have hslot : T.σ.getD i 0 = c.slots.getD i 0 := hext.1 i (by
+      show i < c.slots.length; rw [hp.nslots]; exact hi)
+    have hr0 := inv.range i .bool v0 hkt hs0
+    have hr0' : 0 ≤ v0 ∧ v0 ≤ 1 := by
+      have : InRange ⟨1, false⟩ v0 := hr0
+      simpa [InRange, minVal, maxVal] using this
+    -- load
+    obtain ⟨a, r0, ha, hxl, hrep0⟩ := inv.a.load_bool T.S.cs (lt_of_get hkt) hkt hs0 hr0'
+    rw [hslot] at ha
+    -- the new value
+    unfold incdecVal at hv'
+    rw [Option.map_eq_some_iff] at hv'
+    obtain ⟨z, hz, rfl⟩ := hv'
+    have hP : incTy .bool = .int := rfl
+    rw [hP] at hz
+    have hzr : -2 ^ 31 ≤ z ∧ z < 2 ^ 32 := by
+      cases inc <;> simp only [bin, arith, Bool.false_eq_true, if_false, if_true] at hz
+      all_goals
+        have : (Ty.intTy T.S.cs .int).signed = true := rfl
+        simp only [this, if_true] at hz
+        split at hz
+        · cases hz; omega
+        · cases hz
+    have hia : InRange (Ty.intTy T.S.cs .int) v0 := by
+      show InRange ⟨32, true⟩ v0
+      rw [inRange32s]; omega
+    obtain ⟨r1, hxa, hrep1⟩ : ∃ r1, execOp (if inc = true then Op.add else Op.sub) (some (cls .bool))
+        [r0, ⟨.c, 1⟩] M none = .ok (r1, M) ∧ WRep 32 z r1 := by
+      cases inc
+      · obtain ⟨r1, h1, h2⟩ := binop_exec T.S.cs .sub rfl (t := .int) (tl := .int) (tr := .int)
+          (by simp [BinTyped, BinOp.isShift, BinOp.isCmp, Ty.promoted]) M none hia
+          (inRange_one T.S.cs .int (by decide)) ((rep_w (t := .int) rfl).2 hrep0)
+          (one_rep T.S.cs .int (by decide)) hz
+        exact ⟨r1, h1, (rep_w (t := .int) rfl).1 h2⟩
+      · obtain ⟨r1, h1, h2⟩ := binop_exec T.S.cs .add rfl (t := .int) (tl := .int) (tr := .int)
+          (by simp [BinTyped, BinOp.isShift, BinOp.isCmp, Ty.promoted]) M none hia
+          (inRange_one T.S.cs .int (by decide)) ((rep_w (t := .int) rfl).2 hrep0)
+          (one_rep T.S.cs .int (by decide)) hz
+        exact ⟨r1, h1, (rep_w (t := .int) rfl).1 h2⟩
+    obtain ⟨r2, hxc, hb2⟩ := tobool_w M none hrep1 hzr
+    have hrep2 : Rep .bool (conv (Ty.intTy T.S.cs .int) (Ty.intTy T.S.cs .bool) z) r2 := boolres_rep T.S.cs hb2
+    have hrv : InRange (Ty.intTy T.S.cs .bool) (conv (Ty.intTy T.S.cs .int) (Ty.intTy T.S.cs .bool) z) :=
+      Eval.wrap_inRange (ty_valid T.S.cs .bool) _
+    -- the items
+    simp only [funcinst, Out.seq, List.append_assoc, List.singleton_append, List.cons_append,
+      List.nil_append, ctx_lastid, ctx_blockid, ctx_cur] at hext hits ⊢
+    have hits1 : T.S.its = pre ++ .ins (.op (some (tmpName (c.lastid + 1), cls .bool))
+        (.load (loadOf T.S.cs .bool)) [.tmp (tmpName (c.slots.getD i 0))]) ::
+        (.ins (.op (some (tmpName (c.lastid + 1 + 1), cls .bool))
+          (if inc = true then Op.add else Op.sub) [.tmp (tmpName (c.lastid + 1)), .int 1]) ::
+        (.ins (.op (some (tmpName (c.lastid + 1 + 1 + 1), .w)) (.cmpw .ne)
+          [.tmp (tmpName (c.lastid + 1 + 1)), .int 0]) ::
+        (storeIns .bool (.tmp (tmpName (c.lastid + 1 + 1 + 1))) (c.slots.getD i 0) :: post))) := hits
+    have hr1 := (setM T.S M).run_ins (env := env) hits1 (readVals_one (readVal_tmp ha)) hxl
+    have hits2 : T.S.its = (pre ++ [.ins (.op (some (tmpName (c.lastid + 1), cls .bool))
+        (.load (loadOf T.S.cs .bool)) [.tmp (tmpName (c.slots.getD i 0))])]) ++
+        .ins (.op (some (tmpName (c.lastid + 1 + 1), cls .bool))
+          (if inc = true then Op.add else Op.sub) [.tmp (tmpName (c.lastid + 1)), .int 1]) ::
+        (.ins (.op (some (tmpName (c.lastid + 1 + 1 + 1), .w)) (.cmpw .ne)
+          [.tmp (tmpName (c.lastid + 1 + 1)), .int 0]) ::
+        (storeIns .bool (.tmp (tmpName (c.lastid + 1 + 1 + 1))) (c.slots.getD i 0) :: post)) := by
+      rw [hits1]; simp
+    have hr2 := (setM T.S M).run_ins (env := env.insert (tmpName (c.lastid + 1)) r0) hits2
+      (readVals_two (readVal_insert_self _ _ _ _) (readVal_int _ _ _)) hxa
+    have hits3 : T.S.its = (pre ++ [.ins (.op (some (tmpName (c.lastid + 1), cls .bool))
+        (.load (loadOf T.S.cs .bool)) [.tmp (tmpName (c.slots.getD i 0))])] ++
+        [.ins (.op (some (tmpName (c.lastid + 1 + 1), cls .bool))
+          (if inc = true then Op.add else Op.sub) [.tmp (tmpName (c.lastid + 1)), .int 1])]) ++
+        .ins (.op (some (tmpName (c.lastid + 1 + 1 + 1), .w)) (.cmpw .ne)
+          [.tmp (tmpName (c.lastid + 1 + 1)), .int 0]) ::
+        (storeIns .bool (.tmp (tmpName (c.lastid + 1 + 1 + 1))) (c.slots.getD i 0) :: post) := by
+      rw [hits1]; simp
+    have hr3 := (setM T.S M).run_ins
+      (env := (env.insert (tmpName (c.lastid + 1)) r0).insert (tmpName (c.lastid + 1 + 1)) r1) hits3
+      (readVals_two (readVal_insert_self _ _ _ _) (readVal_int _ _ _)) hxc
+    -- the environment after the three instructions keeps the slots
+    have hfr : Frame c.lastid (c.lastid + 1 + 1 + 1) env
+        (((env.insert (tmpName (c.lastid + 1)) r0).insert (tmpName (c.lastid + 1 + 1)) r1).insert
+          (tmpName (c.lastid + 1 + 1 + 1)) r2) :=
+      ((Frame.insert (lo := c.lastid) (hi := c.lastid + 1 + 1 + 1) env r0 (by omega) (by omega)).comp
+        (Frame.insert (lo := c.lastid) (hi := c.lastid + 1 + 1 + 1) _ r1 (by omega) (by omega))).comp
+        (Frame.insert (lo := c.lastid) (hi := c.lastid + 1 + 1 + 1) _ r2 (by omega) (by omega))
+    have hpre : ∀ j, j < nd → T.σ.getD j 0 = c.slots.getD j 0 := fun j hj => hext.1 j (by
+      show j < c.slots.length; rw [hp.nslots]; exact hj)
+    have hfut : ∀ k, nd ≤ k → k < T.vtys.length → c.lastid + 1 + 1 + 1 < T.σ.getD k 0 := by
+      intro k hk hkv
+      exact hext.2 k (by show c.slots.length ≤ k; rw [hp.nslots]; exact hk) hkv
+    have inv2 := inv.env (slots_kept hp hpre hfut hfr)
+    -- store
+    obtain ⟨a', M', h1, h2, inv3⟩ := inv2.store hkt hrv (storeVal_of_rep hrep2)
+    rw [hslot] at h1
+    have hits4 : T.S.its = (pre ++ [.ins (.op (some (tmpName (c.lastid + 1), cls .bool))
+        (.load (loadOf T.S.cs .bool)) [.tmp (tmpName (c.slots.getD i 0))])] ++
+        [.ins (.op (some (tmpName (c.lastid + 1 + 1), cls .bool))
+          (if inc = true then Op.add else Op.sub) [.tmp (tmpName (c.lastid + 1)), .int 1])] ++
+        [.ins (.op (some (tmpName (c.lastid + 1 + 1 + 1), .w)) (.cmpw .ne)
+          [.tmp (tmpName (c.lastid + 1 + 1)), .int 0])]) ++
+        storeIns .bool (.tmp (tmpName (c.lastid + 1 + 1 + 1))) (c.slots.getD i 0) :: post := by
+      rw [hits1]; simp
+    have hr4 := run_nores T hits4 (readVals_two (readVal_insert_self _ _ _ _) (readVal_tmp h1)) h2
+    refine ⟨hp.jump, 1 + 1 + 1 + 1, _, M', ?_, inv3⟩
+    have hall := ((hr1.trans hr2).trans hr3).trans hr4
+    simp only [List.append_assoc, List.singleton_append, List.cons_append, List.nil_append, storeIns]
+      at hall ⊢
+    exact hall
+  · cases hwt
+
+theorem sim_incdec (n : Nat) (i : Nat) (t : CSem.Ty) (inc : Bool)
+    (hex : exec T.S.cs (n + 1) s (.incdec i t inc) = some out)
+    (hwt : Stmt.wt T.vtys T.ret lp nd (.incdec i t inc) = some nd') (hp : Pos T c nd pre)
+    (hext : Ext T (funcstmt T.S.cs brk cont (.incdec i t inc) c).ctx)
+    (hits : T.S.its = pre ++ (funcstmt T.S.cs brk cont (.incdec i t inc) c).items ++ post)
+    (inv : SInv T.S.cs T.σ T.vtys s env M) :
+    Post T lp brk cont (T.at env M pre) (pre ++ (funcstmt T.S.cs brk cont (.incdec i t inc) c).items)
+      (funcstmt T.S.cs brk cont (.incdec i t inc) c).ctx out := by
+  by_cases htb : t = .bool
+  · subst htb
+    exact sim_incdec_bool T n i inc hex hwt hp hext hits inv
+  · exact sim_incdec_nb T n i t inc htb hex hwt hp hext hits inv
 
 end
 
